@@ -294,7 +294,7 @@ def run(tier, seed):
                                     theorem=pg['theorems'], problems=pg['problems']), False))
     ncases = 40 if tier == 'quick' else 500
     cases = [seed * 100000 + 2000 + i for i in range(ncases)]
-    for r in core.run_cases(run_case, cases):
+    for r in core.run_cases(run_case, core.with_corpus(PID, cases)):
         rep.merge(r)
     rep.obligation('correspondence: TextHeader.print_* = generator writer (token for token)',
                    not any(v[0].get('kind') == 'printer' for v in rep.violations))
